@@ -12,7 +12,68 @@ HOUR = 3600 * 1000          # ms
 R_SHORT = 600               # ms: the only reset time that a run actually crosses
 LONG, SHORT = 900, 100      # waits (ms): >= R_SHORT + 300, and 3 * SHORT <= R_SHORT - 300
 
-THEOREMS = []               # filled below (after the helper definitions)
+THEOREMS = [
+    ("register_refines_reference",
+     "forall (checked : bool) (cfg : config) (t0 : N) (h : list event), "
+     "fits (length h) -> decisions checked cfg t0 h = map Ok (reference cfg t0 h)"),
+    ("ladder_zones",
+     "forall max n : N, (ladder max n = Passed <-> n <= max) /\\ (ladder max n = Send <-> max < n <= 3 * max) /\\ "
+     "(ladder max n = Drop <-> 3 * max < n)"),
+    ("register_never_panics",
+     "forall (checked : bool) (cfg : config) (t0 : N) (h : list event), "
+     "fits (length h) -> Forall (fun d => exists a, d = Ok a) (decisions checked cfg t0 h)"),
+    ("iteration_never_overflows",
+     "forall (checked : bool) (cfg : config) (t0 : N) (h : list event), "
+     "check_every cfg <= usize_max -> iteration (state_after checked cfg t0 h) + 1 <= usize_max"),
+    ("isolation",
+     "forall (checked : bool) (cfg : config) (t0 : N) (h : list event) (i : nat) (b t : N), "
+     "fits (length h) -> nth_error h i = Some (b, t) -> counted cfg t0 (firstn (S i) h) b <= max_requests cfg -> "
+     "nth_error (decisions checked cfg t0 h) i = Some (Ok Passed)"),
+    ("isolation_own_traffic",
+     "forall (checked : bool) (cfg : config) (t0 : N) (h : list event) (i : nat) (b t : N), "
+     "fits (length h) -> nth_error h i = Some (b, t) -> calls_of b h <= max_requests cfg -> "
+     "nth_error (decisions checked cfg t0 h) i = Some (Ok Passed)"),
+    ("others_never_hurt",
+     "forall (checked : bool) (cfg : config) (t0 : N) (h : list event) (i : nat) (b t : N), "
+     "fits (length h) -> nth_error h i = Some (b, t) -> "
+     "exists d, nth_error (decisions checked cfg t0 h) i = Some (Ok d) /\\ "
+     "action_code d <= action_code (ladder (max_requests cfg) (calls_of b (firstn (S i) h)))"),
+    ("counted_without_reset",
+     "forall (cfg : config) (t0 : N) (h : list event) (b : N), reset_after cfg = None -> check_every cfg <> usize_max -> "
+     "counted cfg t0 h b = sampled_calls_of (check_every cfg) b 0 h"),
+    ("reset_forgets",
+     "forall (checked : bool) (cfg : config) (t0 : N) (h1 : list event) (a t : N) (h2 : list event) (R : N), "
+     "fits (length h1) -> reset_after cfg = Some R -> check_every cfg <> usize_max -> "
+     "sampled (check_every cfg) (N.of_nat (length h1)) = true -> "
+     "R <= t - win_start (state_after checked cfg t0 h1) -> "
+     "decisions checked cfg t0 (h1 ++ (a, t) :: h2) = decisions checked cfg t0 h1 ++ Ok Passed :: decisions checked cfg t h2"),
+    ("after_reset_interval",
+     "forall (checked : bool) (cfg : config) (st : lstate) (a t R : N), "
+     "reset_after cfg = Some R -> R <= t - win_start st -> "
+     "snd (register checked cfg st a t) = Ok Passed /\\ "
+     "(check_every cfg <> usize_max -> check_every cfg <= iteration st + 1 -> fst (register checked cfg st a t) = init t)"),
+    ("reset_within_check_every",
+     "forall (checked : bool) (cfg : config) (t0 : N) (h1 h2 : list event) (R : N), "
+     "reset_after cfg = Some R -> check_every cfg <> usize_max -> h2 <> [] -> check_every cfg <= N.of_nat (length h2) -> "
+     "Forall (fun e => R <= snd e - win_start (state_after checked cfg t0 h1)) h2 -> "
+     "exists p a t s, h2 = p ++ (a, t) :: s /\\ state_after checked cfg t0 (h1 ++ p ++ [(a, t)]) = init t /\\ "
+     "decisions checked cfg t0 (h1 ++ p ++ [(a, t)]) = decisions checked cfg t0 h1 ++ repeat (Ok Passed) (S (length p)) /\\ "
+     "(p = [] \\/ N.of_nat (length p) < check_every cfg)"),
+    ("disabled_never_limits",
+     "forall (checked : bool) (cfg : config) (t0 : N) (h : list event), "
+     "decisions checked (disable cfg) t0 h = repeat (Ok Passed) (length h) /\\ state_after checked (disable cfg) t0 h = init t0"),
+    ("listener_survives",
+     "forall (checked : bool) (cfg : config) (t0 : N) (evs : list conn_event), "
+     "fits (ev_calls_bound evs) -> existsb is_shutdown evs = false -> max_err_run 0 evs <= 100 -> "
+     "snd (accept_loop checked cfg t0 evs) = true /\\ ~ In Refused (fst (accept_loop checked cfg t0 evs))"),
+    ("server_refines_reference",
+     "forall (checked : bool) (cfg : config) (t0 : N) (cs : list connection), "
+     "fits (calls_bound cs) -> accept_loop checked cfg t0 (map conn_of cs) = (spec_server cfg t0 cs, true)"),
+    ("listener_dies_063_refuted",
+     "let cfg := {| max_requests := 0; check_every := 1; reset_after := Some 10000 |} in "
+     "accept_loop_063 true cfg 0 [Conn 1 0 []; Conn 2 1 [1]] = ([Served [] true; Refused], false) /\\ "
+     "accept_loop true cfg 0 [Conn 1 0 []; Conn 2 1 [1]] = ([Served [] true; Served [] true], true)"),
+]
 
 RULE = ("(1) direct calls LimitManager::new(max, check_every, reset_seconds) + register(addr) per event of a generated sequential history "
         "(both arithmetic profiles) against the Coq model of register (correspondence) and against the reference counter (oracle): "
